@@ -33,7 +33,7 @@ pub enum E {
     Tup(i32, String),
     Struct { x: i32, y: Option<bool> },
 }
-#[derive(Serialize, Deserialize, PartialEq, Debug, Clone)]
+#[derive(Serialize, Deserialize, PartialEq, Eq, PartialOrd, Ord, Debug, Clone)]
 pub struct N(pub i32);
 #[derive(Serialize, Deserialize, PartialEq, Debug, Clone)]
 pub struct U;
@@ -492,6 +492,10 @@ pub const IDS: &[u32] = &[
 ];
 
 pub fn gen(seed: u64, thorough: bool) {
+    gen_tagged(seed, thorough, "c04");
+}
+
+pub fn gen_tagged(seed: u64, thorough: bool, tag: &str) {
     let mut out = Out::new();
     let mut r = Rng::new(seed ^ 0x04);
     let per = if thorough { 2500 } else { 140 };
@@ -500,7 +504,7 @@ pub fn gen(seed: u64, thorough: bool) {
         for _ in 0..per {
             let mut s = String::new();
             gen_for(&mut r, &t, 0, &mut s);
-            out.line(&format!("c04 {} {}", id, hex(s.as_bytes())));
+            out.line(&format!("{} {} {}", tag, id, hex(s.as_bytes())));
         }
     }
     // every type against a fixed set of texts of every shape
@@ -513,7 +517,7 @@ pub fn gen(seed: u64, thorough: bool) {
     ];
     for &id in IDS {
         for s in shapes {
-            out.line(&format!("c04 {} {}", id, hex(s.as_bytes())));
+            out.line(&format!("{} {} {}", tag, id, hex(s.as_bytes())));
         }
     }
 }
